@@ -119,6 +119,7 @@ type cutProxy struct {
 	target string
 	mu     sync.Mutex
 	armed  bool
+	slow   time.Duration // every reply is held back this long (a node slower than the RPC timeout)
 }
 
 func newCutProxy(target string) (*cutProxy, error) {
@@ -166,6 +167,12 @@ func (p *cutProxy) handle(c net.Conn) {
 		if _, err := io.ReadFull(br, payload); err != nil {
 			return
 		}
+		p.mu.Lock()
+		slow := p.slow
+		p.mu.Unlock()
+		if slow > 0 {
+			time.Sleep(slow)
+		}
 		if _, err := c.Write(append(hdr, payload...)); err != nil {
 			return
 		}
@@ -203,7 +210,18 @@ type Cluster struct {
 	Down    []bool
 }
 
+// SlowTimeout is the RPC timeout of a cluster made by NewWithTimeout for cases with a slow
+// node; SlowDelay is how long a slow node holds back each reply.
+const (
+	SlowTimeout = 1200 * time.Millisecond
+	SlowDelay   = 2000 * time.Millisecond
+)
+
 func New(dir string, n int, index string) (*Cluster, error) {
+	return NewWithTimeout(dir, n, index, 0)
+}
+
+func NewWithTimeout(dir string, n int, index string, rpcTimeout time.Duration) (*Cluster, error) {
 	c := &Cluster{Dir: dir, Data: &meta.Data{}}
 	if err := c.Data.CreateDatabase(DB); err != nil {
 		return nil, err
@@ -218,7 +236,7 @@ func New(dir string, n int, index string) (*Cluster, error) {
 		if err != nil {
 			return nil, err
 		}
-		nd, err := node.New(filepath.Join(dir, fmt.Sprintf("n%d", i)), ln, node.Options{Index: index})
+		nd, err := node.New(filepath.Join(dir, fmt.Sprintf("n%d", i)), ln, node.Options{Index: index, RPCTimeout: rpcTimeout})
 		if err != nil {
 			return nil, err
 		}
@@ -345,10 +363,14 @@ func (c *Cluster) SetDown(i int) {
 func (c *Cluster) SetFault(i int, f Fault) {
 	c.proxies[i].mu.Lock()
 	c.proxies[i].armed = f.Kind == "cut"
+	c.proxies[i].slow = 0
+	if f.Kind == "slow" {
+		c.proxies[i].slow = SlowDelay
+	}
 	c.proxies[i].mu.Unlock()
 	c.stores[i].mu.Lock()
 	c.stores[i].fault = f
-	if f.Kind == "cut" {
+	if f.Kind == "cut" || f.Kind == "slow" {
 		c.stores[i].fault = Fault{Kind: "cutmark"} // nothing injected on the serving side
 	}
 	c.stores[i].mu.Unlock()
